@@ -165,11 +165,19 @@ func rx1Histories(s *cases.Set, r *cq.RNG, thorough bool, cfgs []bandcfg.Config)
 			rx1HistoryMode(s, c, "", desc, []bandcfg.ChanOp{A(fresh(5), cfmin, cfmax), D(nch)}, "rx1-channel-after-history-with-getters", true)
 			rx1HistoryMode(s, c, "", []bandcfg.ChanOp{A(dup, top, top), A(fresh(5), lo0, hi0)}, []bandcfg.ChanOp{D(nch / 2), A(fresh(4), lo0, hi0)}, "rx1-channel-after-history-with-getters", true)
 			// custom channels very close to existing ones (a frequency is a number, not an opaque key):
-			// +-1, +-100, +-500, +-999, +-1000, +-1001 Hz from default and custom channels
+			// 1, 2, 5, 9, 10, 11 raster steps (100 Hz; 200 Hz from 2.4 GHz on - what AddChannel accepts)
+			// above / below default and custom channels, and +-1 Hz / +-999 Hz (refused since a79c4b5)
+			st := uint32(100)
+			if base[0] >= 2400000000 {
+				st = 200
+			}
 			last := base[nch-1]
-			rx1History(s, c, "", []bandcfg.ChanOp{A(base[0]+1, lo0, hi0), A(base[0]-100, lo0, hi0), A(base[0]+500, lo0, hi0)}, []bandcfg.ChanOp{A(base[0]-1, lo0, hi0), A(base[0]+100, lo0, hi0), A(base[0]-500, lo0, hi0)}, "rx1-channel-close-frequencies")
-			rx1History(s, c, "", []bandcfg.ChanOp{A(last+999, lo0, hi0), A(last-1000, lo0, hi0), A(last+1001, lo0, hi0)}, []bandcfg.ChanOp{A(last-999, lo0, hi0), A(last+1000, lo0, hi0), A(last-1001, lo0, hi0)}, "rx1-channel-close-frequencies")
-			rx1History(s, c, "", []bandcfg.ChanOp{A(fresh(11), lo0, hi0), A(fresh(11)+500, lo0, hi0), A(fresh(11)-1, lo0, hi0), A(fresh(11)+999, top, top)}, []bandcfg.ChanOp{A(fresh(11)+1499, lo0, hi0), A(fresh(11)-1000, lo0, hi0)}, "rx1-channel-close-frequencies")
+			rx1History(s, c, "", []bandcfg.ChanOp{A(base[0]+st, lo0, hi0), A(base[0]-st, lo0, hi0), A(base[0]+5*st, lo0, hi0), A(base[0]+1, lo0, hi0)},
+				[]bandcfg.ChanOp{A(base[0]-2*st, lo0, hi0), A(base[0]+2*st, lo0, hi0), A(base[0]-5*st, lo0, hi0), A(base[0]-999, lo0, hi0)}, "rx1-channel-close-frequencies")
+			rx1History(s, c, "", []bandcfg.ChanOp{A(last+9*st, lo0, hi0), A(last-10*st, lo0, hi0), A(last+11*st, lo0, hi0)},
+				[]bandcfg.ChanOp{A(last-9*st, lo0, hi0), A(last+10*st, lo0, hi0), A(last-11*st, lo0, hi0), A(last-1, lo0, hi0)}, "rx1-channel-close-frequencies")
+			rx1History(s, c, "", []bandcfg.ChanOp{A(fresh(11), lo0, hi0), A(fresh(11)+5*st, lo0, hi0), A(fresh(11)-st, lo0, hi0), A(fresh(11)+9*st, top, top)},
+				[]bandcfg.ChanOp{A(fresh(11)+14*st, lo0, hi0), A(fresh(11)-10*st, lo0, hi0), A(fresh(11)+999, lo0, hi0)}, "rx1-channel-close-frequencies")
 		} else if main || thorough {
 			// one refused AddChannel, nothing changes
 			rx1History(s, c, "", []bandcfg.ChanOp{A(fresh(50), lo0, hi0)}, nil, "rx1-channel-after-refused-add")
